@@ -30,6 +30,7 @@ meta = {
     "needs_to_manifest": (m.group(0).strip()[:900] if m else "see author_notes.md"),
     "confirmed_by": "selftest/seeded.sh on a scratch copy of /repo HEAD: go build ./..., go test -vet=off -count=1 ./..., demonstration with and without the change, then the check(s) below (quick tier, VERIF_REPO=<copy>)",
     "confirmation": res,
+    "extra_checks": extra,
     "caught_by": [c["check"] for c in res["checks"] if c["exit"] == 1],
     "missed_by": [c["check"] for c in res["checks"] if c["exit"] != 1],
 }
